@@ -59,6 +59,10 @@ def main():
 
         # ---- proof side -------------------------------------------------------------------------
         broken = []                                  # names of obligations / streams that no longer check
+        for u in gen_notes.get("unreadable", []):
+            # the source no longer has the shape the translator reads: the model cannot be regenerated from it, so nothing proved about the
+            # generated tables is established for this source (the stale tables stay in place for the search that follows)
+            broken.append({"kind": "translator", "table": u["table"], "why": u["why"]})
         ok_props, log_props = lean.build(lean.targets_of(prop))
         ok_drv, log_drv = lean.build(["driver"])
         axioms = {}
